@@ -428,6 +428,31 @@ pub trait Language {
 
 /// Lookup any refeferences to other typeshared types in order to build
 /// a list of imports for the generated module.
+/// Write `value` as a double-quoted string literal that Kotlin, Scala and Go read back as exactly
+/// `value`. Rust's `{:?}` is not that: it spells combining marks, variation selectors and control
+/// characters as `\u{..}`, which none of these languages accepts. `escape_dollar`: Kotlin, where a
+/// bare `$` starts a string template.
+pub(crate) fn quoted_string_literal(value: &str, escape_dollar: bool) -> String {
+    let mut out = String::with_capacity(value.len() + 2);
+    out.push('"');
+    for c in value.chars() {
+        match c {
+            '"' => out.push_str("\\\""),
+            '\\' => out.push_str("\\\\"),
+            '\n' => out.push_str("\\n"),
+            '\r' => out.push_str("\\r"),
+            '\t' => out.push_str("\\t"),
+            '$' if escape_dollar => out.push_str("\\$"),
+            c if (c as u32) < 0x20 || c == '\u{7f}' => {
+                out.push_str(&format!("\\u{:04x}", c as u32))
+            }
+            c => out.push(c),
+        }
+    }
+    out.push('"');
+    out
+}
+
 fn used_imports<'a, 'b: 'a>(
     data: &'b ParsedData,
     all_types: &'a CrateTypes,
